@@ -23,6 +23,9 @@ def routes(R, B, r, base, heavy=True):
         ('builder.to_slice.to_cell', lambda: base.to_builder().to_slice().to_cell()),
         ('direct_tvm', lambda: B.Cell(bridge.tvm_bits(r.bits), list(base.refs), -1)),
         ('direct_plain', lambda: B.Cell(bitarray(r.bits), list(base.refs), -1)),
+        # the same bit string in a bit array of the other (little-endian) storage order, plain and TvmBitarray: the bits are the bits, whatever their storage
+        ('direct_little_endian', lambda: B.Cell(bitarray(r.bits, endian='little'), list(base.refs), -1)),
+        ('direct_refs_tuple_free', lambda: B.Cell(bitarray(r.bits), [k for k in base.refs], -1)),
     ]
     import copy as _copy
     import pickle as _pickle
